@@ -488,6 +488,16 @@ def _macro_paths(prog, rep, la):
         want = {'pthread_mutex_unlock'} if macro == 'Q_MUTEX_LEAVE' else {'pthread_mutex_trylock', 'pthread_mutex_lock'}
         cfg = CFG(f, atomic_macros=False)
         rep.instance('A-macro-path')
+        # locals holding the mutex operand (`qmutex_t *_m = (qmutex_t *)(tbl->qmutex);`, never re-assigned)
+        from .expr import var_init
+        aliases = set()
+        for x in walk(f.body):
+            if x.get('kind') == 'VarDecl' and var_init(x) is not None and canon(var_init(x)).endswith('qmutex'):
+                aliases.add(x.get('name'))
+        for x in walk(f.body):
+            if x.get('kind') in ('BinaryOperator', 'CompoundAssignOperator') and (x.get('opcode') or '').endswith('=') \
+                    and x.get('opcode') not in ('==', '!=', '<=', '>='):
+                aliases.discard(canon(children(x)[0]))
 
         def has_call(n):
             if not isinstance(n.ast, dict):
@@ -507,7 +517,7 @@ def _macro_paths(prog, rep, la):
             for (s, lab) in n.succs:
                 if n.kind == 'cond' and isinstance(n.ast, dict):
                     t = cond_null_test(n.ast)
-                    if t and t[0].endswith('qmutex') and ((lab == 'T') == t[1]):
+                    if t and (t[0].endswith('qmutex') or t[0] in aliases) and ((lab == 'T') == t[1]):
                         continue        # mutex absent: nothing to release
                 if s is cfg.exit:
                     bad = path + [n]
